@@ -19,6 +19,11 @@ type Config struct {
 	Str func(t *rapid.T, role string) string
 	// PluginSrc generates plugin sources; nil means plug.Gen (documented forms).
 	PluginSrc func(t *rapid.T) string
+	// UniqueAnchors: never define an anchor name twice (default: one anchor in six reuses a name).
+	UniqueAnchors bool
+	// OddSources: one source in eight is a 3+-segment source holding percent escapes, reserved
+	// characters or non-ASCII text (left as written; outside C17's domain, inside C09's and C02's).
+	OddSources bool
 
 	Anchors       bool // aliases and << merges
 	Timestamps    bool // timestamp scalars at Any positions
@@ -44,7 +49,11 @@ type G struct {
 	C       Config
 	anchors map[string][]*yaml.Node
 	nAnch   int
-	Feat    map[string]int
+	// anchor names may be defined again later in the document (an alias refers to the latest
+	// definition before it): latest[name] is the node an alias *name written now would reach
+	latest map[string]*yaml.Node
+	names  []string
+	Feat   map[string]int
 	// Canon maps every generated plugin source to the canonical form the
 	// documented rule prescribes (from its structured form).
 	Canon map[string]string
@@ -57,7 +66,7 @@ func NewG(t *rapid.T, c Config) *G {
 	if c.MaxDepth == 0 {
 		c.MaxDepth = 3
 	}
-	return &G{T: t, C: c, anchors: map[string][]*yaml.Node{}, Feat: map[string]int{}, Canon: map[string]string{}}
+	return &G{T: t, C: c, anchors: map[string][]*yaml.Node{}, latest: map[string]*yaml.Node{}, Feat: map[string]int{}, Canon: map[string]string{}}
 }
 
 func (g *G) feat(f string) { g.Feat[f]++ }
@@ -230,10 +239,55 @@ func (g *G) register(n *yaml.Node, sort string) {
 		return
 	}
 	if n.Anchor == "" {
-		g.nAnch++
-		n.Anchor = fmt.Sprintf("a%d", g.nAnch)
+		g.setAnchor(n)
 	}
 	g.anchors[sort] = append(g.anchors[sort], n)
+}
+
+// mentions reports whether the subtree of n (n's own anchor aside) defines or references anchor name.
+func mentions(n *yaml.Node, name string, top bool) bool {
+	if !top && n.Anchor == name {
+		return true
+	}
+	if n.Kind == yaml.AliasNode && n.Value == name {
+		return true
+	}
+	for _, c := range n.Content {
+		if mentions(c, name, false) {
+			return true
+		}
+	}
+	return false
+}
+
+// setAnchor anchors n: usually under a fresh name, one time in six under a name that an earlier
+// node already carries (a redefinition; documents are generated in document order, so from here on
+// *name reaches n). A name that n's own subtree defines or references is never reused: the anchor
+// of n is written before its content.
+func (g *G) setAnchor(n *yaml.Node) {
+	if len(g.names) > 0 && !g.C.UniqueAnchors && g.coin("reusename", 6) {
+		name := pick(g, "reusedname", g.names)
+		if g.latest[name] != n && !mentions(n, name, true) {
+			n.Anchor = name
+			g.latest[name] = n
+			g.feat("anchor-name-redefined")
+			return
+		}
+	}
+	n.Anchor = g.newAnchor()
+	g.latest[n.Anchor] = n
+	g.names = append(g.names, n.Anchor)
+}
+
+// live filters a pool of anchored nodes down to those an alias written now would still reach.
+func (g *G) live(pool []*yaml.Node) []*yaml.Node {
+	var out []*yaml.Node
+	for _, n := range pool {
+		if g.latest[n.Anchor] == n {
+			out = append(out, n)
+		}
+	}
+	return out
 }
 
 // alias may return an alias to an earlier node of the same sort.
@@ -241,9 +295,13 @@ func (g *G) alias(sort string) *yaml.Node {
 	if !g.C.Anchors || len(g.anchors[sort]) == 0 || !g.coin("alias?", 4) {
 		return nil
 	}
+	pool := g.live(g.anchors[sort])
+	if len(pool) == 0 {
+		return nil
+	}
 	g.feat("alias:" + sort)
 	g.feat("alias")
-	return AliasNode(pick(g, "target", g.anchors[sort]))
+	return AliasNode(pick(g, "target", pool))
 }
 
 type ent struct {
@@ -278,9 +336,9 @@ func (g *G) mapping(mergeSort string, plan []ent) *yaml.Node {
 	n := MapNode(flow)
 	mergeAt := -1
 	var srcs []*yaml.Node
-	if mergeSort != "" && g.C.Anchors && len(g.anchors["map:"+mergeSort]) > 0 && g.coin("merge?", 3) {
+	if mergeSort != "" && g.C.Anchors && len(g.live(g.anchors["map:"+mergeSort])) > 0 && g.coin("merge?", 3) {
 		mergeAt = g.intn("mergeAt", 0, len(plan))
-		pool := g.anchors["map:"+mergeSort]
+		pool := g.live(g.anchors["map:"+mergeSort])
 		k := 1
 		if len(pool) > 1 && g.coin("twosrc", 2) {
 			k = 2
@@ -289,6 +347,11 @@ func (g *G) mapping(mergeSort string, plan []ent) *yaml.Node {
 		srcs = perm[:k]
 	}
 	emitMerge := func() {
+		// entries generated since the sources were chosen may have redefined a source's name
+		srcs = g.live(srcs)
+		if len(srcs) == 0 {
+			return
+		}
 		g.feat("merge")
 		g.feat("merge:" + mergeSort)
 		var v *yaml.Node
@@ -306,6 +369,8 @@ func (g *G) mapping(mergeSort string, plan []ent) *yaml.Node {
 				// an anchored merge-value sequence that refers back to itself: a merge cycle
 				// through a sequence, which must be tolerated (it contributes nothing)
 				v.Anchor = g.newAnchor()
+				g.latest[v.Anchor] = v
+				g.names = append(g.names, v.Anchor)
 				v.Content = append(v.Content, AliasNode(v))
 				g.feat("merge-cycle-through-sequence")
 			}
@@ -522,7 +587,7 @@ func (g *G) Pipeline() *yaml.Node {
 func (g *G) template() *yaml.Node {
 	if g.coin("envtemplate", 2) {
 		n := g.envMap("envval", g.intn("tn", 1, 4))
-		n.Anchor = g.newAnchor()
+		g.setAnchor(n)
 		g.anchors["map:env"] = append(g.anchors["map:env"], n)
 		g.anchors["map:stepenv"] = append(g.anchors["map:stepenv"], n)
 		g.anchors["env"] = append(g.anchors["env"], n)
@@ -545,7 +610,7 @@ func (g *G) template() *yaml.Node {
 	}
 	plan = append(plan, g.extras(used, union(kindKeySet, commandModelled), g.intn("t-extras", 1, 3))...)
 	n := g.mapping("", g.shuffle(plan))
-	n.Anchor = g.newAnchor()
+	g.setAnchor(n)
 	g.anchors["map:cmdstep"] = append(g.anchors["map:cmdstep"], n)
 	return n
 }
@@ -739,8 +804,8 @@ func (g *G) envBlock(sort string, pipelineLevel bool) *yaml.Node {
 	n := g.envMap("envval", cnt)
 	// rebuild through mapping() to get merges: envMap used mergeSort "" - redo with sort
 	// (cheap trick: insert a merge entry here)
-	if g.C.Anchors && len(g.anchors["map:"+sort]) > 0 && g.coin("envmerge?", 3) {
-		pool := g.anchors["map:"+sort]
+	if g.C.Anchors && len(g.live(g.anchors["map:"+sort])) > 0 && g.coin("envmerge?", 3) {
+		pool := g.live(g.anchors["map:"+sort])
 		src := pick(g, "envsrc", pool)
 		at := g.intn("envmergeAt", 0, len(n.Content)/2) * 2
 		var v *yaml.Node = AliasNode(src)
@@ -767,7 +832,13 @@ func (g *G) pluginSrc() string {
 	if g.C.PluginSrc != nil {
 		return g.C.PluginSrc(g.T)
 	}
-	p := plug.Gen().Draw(g.T, "plugin")
+	var p plug.Src
+	if g.C.OddSources && g.coin("oddsrc", 8) {
+		p = plug.GenOdd().Draw(g.T, "oddplugin")
+		g.feat("plugin-source-odd-3+segments")
+	} else {
+		p = plug.Gen().Draw(g.T, "plugin")
+	}
 	g.Canon[p.Text] = p.Canon
 	return p.Text
 }
@@ -933,41 +1004,56 @@ func (g *G) matrix() *yaml.Node {
 		var plan []ent
 		var dims []string
 		anon := g.coin("anon", 3)
-		plan = append(plan, ent{key: "setup", gen: func() *yaml.Node {
-			if anon {
-				g.feat("matrix-setup-list")
-				lo := 1
-				if g.C.EmptyMatrix {
-					lo = 0
+		// a mapping-form matrix with no dimensions at all: `setup` absent, null or {} - next to
+		// adjustments and / or other keys, so that the matrix is not empty as a whole
+		noDims := 0
+		if g.C.EmptyMatrix && g.coin("nodims", 6) {
+			noDims = g.intn("nodimsform", 1, 3)
+			g.feat("matrix-no-dimensions")
+		}
+		if noDims != 1 {
+			plan = append(plan, ent{key: "setup", gen: func() *yaml.Node {
+				if noDims == 2 {
+					return Plain("null")
 				}
-				l := g.valueList("dimval", lo)
-				if l.Kind != yaml.SequenceNode {
-					l = SeqNode(true, l)
+				if noDims == 3 {
+					return MapNode(true)
 				}
-				dims = []string{""}
-				return l
-			}
-			g.feat("matrix-setup-map")
-			du := map[string]bool{}
-			var dp []ent
-			if g.coin("mixed-anon", 5) {
-				// the anonymous dimension written explicitly (key "") next to named ones
-				dims = append(dims, "")
-				dp = append(dp, ent{key: "", gen: func() *yaml.Node { return g.valueList("dimval", 1) }})
-				g.feat("matrix-mixed-anonymous-named")
-			}
-			for i, c := 0, g.intn("ndims", 1, 3); i < c; i++ {
-				d, ok := g.dimName(du)
-				if !ok {
-					continue
+				if anon {
+					g.feat("matrix-setup-list")
+					lo := 1
+					if g.C.EmptyMatrix {
+						lo = 0
+					}
+					l := g.valueList("dimval", lo)
+					if l.Kind != yaml.SequenceNode {
+						l = SeqNode(true, l)
+					}
+					dims = []string{""}
+					return l
 				}
-				dims = append(dims, d)
-				dp = append(dp, ent{key: d, gen: func() *yaml.Node { return g.valueList("dimval", 0) }})
-			}
-			return g.mapping("dims", dp)
-		}})
+				g.feat("matrix-setup-map")
+				du := map[string]bool{}
+				var dp []ent
+				if g.coin("mixed-anon", 5) {
+					// the anonymous dimension written explicitly (key "") next to named ones
+					dims = append(dims, "")
+					dp = append(dp, ent{key: "", gen: func() *yaml.Node { return g.valueList("dimval", 1) }})
+					g.feat("matrix-mixed-anonymous-named")
+				}
+				for i, c := 0, g.intn("ndims", 1, 3); i < c; i++ {
+					d, ok := g.dimName(du)
+					if !ok {
+						continue
+					}
+					dims = append(dims, d)
+					dp = append(dp, ent{key: d, gen: func() *yaml.Node { return g.valueList("dimval", 0) }})
+				}
+				return g.mapping("dims", dp)
+			}})
+		}
 		used["setup"] = true
-		if g.coin("adj?", 2) {
+		if g.coin("adj?", 2) || (noDims != 0 && g.intn("nodimsadj", 0, 3) > 0) {
 			used["adjustments"] = true
 			plan = append(plan, ent{key: "adjustments", gen: func() *yaml.Node {
 				g.feat("matrix-adjustments")
@@ -987,7 +1073,7 @@ func (g *G) matrix() *yaml.Node {
 							}
 							wp = append(wp, ent{key: d, gen: func() *yaml.Node { return g.withScalar() }})
 						}
-						if len(wp) == 0 {
+						if len(wp) == 0 && !(noDims != 0 && g.coin("withempty", 2)) {
 							wp = append(wp, ent{key: "os", gen: func() *yaml.Node { return g.withScalar() }})
 						}
 						return g.mapping("", wp)
